@@ -407,7 +407,7 @@ func main() {
 	}
 	fmt.Println(picked)
 }`},
-	{name: "operand after a call with effects", keep: []string{"tag"}, src: `
+	{name: "operand after a call with effects", src: `
 var n int
 func bump() int { n++; return n }
 func tag(v int) string {
@@ -416,9 +416,15 @@ func tag(v int) string {
 	return string(b[:])
 }
 func show(i int, s string) { fmt.Println(i, s) }
+func tagAndBump(v int) string {
+	n += 10
+	return tag(v)
+}
 func main() {
 	show(bump(), tag(1))
 	show(bump(), tag(2))
+	show(bump(), tagAndBump(3))
+	show(n, tagAndBump(4))
 }`},
 	{name: "value receiver changed in the body", expand: []string{"with"}, src: `
 type batch struct{ n int; ids [2]int }
@@ -501,6 +507,121 @@ func main() {
 	done <- true
 	v, ok = poll(ch, done)
 	fmt.Println(v, ok)
+}`},
+	{name: "labelled loop and a range over the variadic elements", expand: []string{"without"}, src: `
+func without(peers []string, exclude ...string) []string {
+	var remaining []string
+nextPeer:
+	for _, peer := range peers {
+		for _, excluded := range exclude {
+			if peer == excluded {
+				continue nextPeer
+			}
+		}
+		remaining = append(remaining, peer)
+	}
+	return remaining
+}
+func main() {
+	all := []string{"a", "b", "c", "d"}
+	me, join := "b", "d"
+	peers := without(all, me, join)
+	rest := without(peers, "a")
+	none := without(all)
+	fmt.Println(peers, rest, none)
+}`},
+	{name: "operand with effects that nothing precedes", src: `
+var journal []string
+type st struct{ n int }
+func collect(names []string, tag string) []int {
+	journal = append(journal, "collect "+tag)
+	var out []int
+	for _, n := range names { out = append(out, len(n)) }
+	return out
+}
+func judge(xs []int) int { journal = append(journal, "judge"); t := 0; for _, x := range xs { t += x }; return t }
+func (s *st) judge(xs []int) int { s.n++; return judge(xs) + s.n }
+func run(names []string) int {
+	return judge(collect(names, "run"))
+}
+func main() {
+	a := judge(collect([]string{"ab", "c"}, "a"))
+	s := &st{}
+	b := s.judge(collect([]string{"xyz"}, "b"))
+	fmt.Println(a, b, run([]string{"q"}), journal)
+}`},
+	{name: "early returns threaded to the guard that follows", expand: []string{"lookup2", "pick"}, src: `
+type cmd struct{ min int; name string }
+var cmds = map[string]*cmd{"join": {1, "JOIN"}, "quit": {0, "QUIT"}}
+var replies []string
+func lookup2(server bool, name string, n int) (*cmd, bool) {
+	prefix := ""
+	if server { prefix = "server_" }
+	c, ok := cmds[prefix+name]
+	if !ok { replies = append(replies, "unknown "+name); return nil, false }
+	if n < c.min { replies = append(replies, "need more "+name); return nil, false }
+	return c, true
+}
+func process(server bool, name string, n int) string {
+	c, ok := lookup2(server, name, n)
+	if !ok {
+		return "refused"
+	}
+	return c.name
+}
+func pick(xs []int, want int) (int, bool) {
+	for i, x := range xs {
+		if x == want { return i, true }
+	}
+	return -1, false
+}
+func main() {
+	fmt.Println(process(false, "join", 1), process(false, "join", 0), process(true, "join", 1), process(false, "nope", 3), replies)
+	for _, w := range []int{5, 7, 9} {
+		idx, found := pick([]int{9, 5}, w)
+		if !found { fmt.Println(w, "missing"); continue }
+		fmt.Println(w, idx)
+	}
+}`},
+	{name: "generic helper", expand: []string{"sortedKeys"}, src: `
+type lc string
+func sortedKeys[K ~string, V any](m map[K]V) []string {
+	keys := make([]string, 0, len(m))
+	for k := range m { keys = append(keys, string(k)) }
+	sort.Strings(keys)
+	return keys
+}
+func main() {
+	a := sortedKeys(map[lc]bool{"b": true, "a": true})
+	b := sortedKeys(map[string]int{"z": 1})
+	fmt.Println(a, b)
+}`},
+	{name: "helper with defers in the last clause before a constant return", expand: []string{"install", "skip"}, src: `
+var order []string
+var mu sync.Mutex
+func install(v int) {
+	if v < 0 { order = append(order, "invalid"); return }
+	mu.Lock()
+	defer mu.Unlock()
+	defer func() { order = append(order, "deferred") }()
+	order = append(order, fmt.Sprint("installed ", v))
+}
+func skip(v int) { order = append(order, "skipped") }
+func apply(kind string, v int) error {
+	defer func() { order = append(order, "outer") }()
+	switch kind {
+	case "config":
+		install(v)
+	case "death":
+		skip(v)
+	case "create":
+		return errors.New("exists")
+	}
+	return nil
+}
+func main() {
+	fmt.Println(apply("config", 1), apply("config", -1), apply("death", 0), apply("create", 0), apply("other", 0))
+	fmt.Println(order)
 }`},
 }
 
